@@ -1,5 +1,5 @@
 ENGINES = [
-    {"name": "csym", "path": "vt/csym.py", "serves_properties": ["C01", "C03", "C18"],
+    {"name": "csym", "path": "vt/csym.py", "serves_properties": ["C01", "C02", "C03", "C18"],
      "kind_free_text": "symbolic interpreter of traits/ctraits.c over clang's JSON AST (regenerated from the current source on every run), "
                        "CPython API contracts in vt/capi.py, shared path condition with symx; memory-safety assertions on every path"},
     {"name": "symx", "path": "vt/symx.py", "serves_properties": ["C01", "C03", "C04", "C05", "C06", "C07"],
@@ -88,4 +88,15 @@ CHECKS["C18"] = dict(
          "cannot be confirmed by a sanitizer here; the table finding is replayed in a subprocess (crash = reproduced), path findings are "
          "re-interpreted concretely. Outside: type slots, GC traverse/clear, module init, _has_traits_items_event, allocation failure, "
          "callbacks that drop references the function does not own, hand-written nested descriptors.")
+CHECKS["C02"] = dict(
+    engine="csym+symx",
+    text="Bounded model checking of assignment histories (k=2 quick, 3 thorough) through the interpreted C path (has_traits_setattro, "
+         "setattr_trait, setattr_event, getattr_trait, call_notifiers from the AST of ctraits.c) with the real Python notifier wrappers "
+         "(static _x_changed, two on_trait_change handlers, observe) running natively; value payloads are z3 Ints / Float64s so that "
+         "equal-but-not-identical, NaN and raising/ambiguous comparisons are decided by the solver; 3 comparison modes x Any/Int/Event/"
+         "Expression traits x which handler raises x first-read-of-default; oracle: each mechanism is called exactly once iff the assignment "
+         "is a change under the mode, old/new are the objects readable before/after, rejected assignments and default reads are silent.",
+    design_ref="DESIGN.md section 4 C02", technique="symbolic interpretation of the C source (clang AST) plus native symbolic execution of the Python wrappers, z3; counterexamples replayed",
+    note="Comparison mode is concrete per obligation (the Python filters read it from the real CTrait). Assumes consistent ==/!=, int payloads "
+         "outside the small-int cache, |int|<=2**53 in int/float comparisons. Outside: dispatch='ui'/'new', handlers mutating notifier lists.")
 NOT_APPLICABLE = {p: NOT_BUILT for p in ["C%02d" % i for i in range(1, 21)]}
